@@ -289,7 +289,7 @@ def loop_locals(ctx, P, iters):
     for m in ("simulate_until_max_time", "simulate_until_max_customers", "simulate_until_deadlock"):
         cls, fn = sim.method(m)
         params = set(a.arg for a in fn.args.args)
-        w = Walker(P, sim, keep=lambda e: e.kind in ("reads", "guard") or (e.kind == "assign" and e.d.get("local")) or e.kind == "iter", track=lambda t, f: True, inline=lambda ev: False,
+        w = Walker(P, sim, keep=lambda e: e.kind in ("reads", "guard") or (e.kind == "assign" and e.d.get("local")) or e.kind == "iter", track=lambda t, f: True, inline=rules.new_helper,
                    local_reads=True, loop_iters=iters)
         for st in w.paths_of(cls, fn):
             if st.status == "raise":
@@ -338,7 +338,7 @@ def loop_guards(ctx, P, iters):
         ctx.violation(ob, "R5.loop-guard", "Simulation.simulate_until_max_time", "wrap_up_servers(max_simulation_time)", "wrap-up-time", "server statistics must be closed at the requested horizon", loc(fn))
     # event_and_return_nextnode: one have_event, then every node updates, then the next active node
     cls, fn = sim.method("event_and_return_nextnode")
-    w = Walker(P, sim, keep=lambda e: e.kind == "call" and e.d["meth"] in ("have_event", "update_next_event_date", "find_next_active_node") or e.kind in ("iter", "return"), inline=lambda ev: False, loop_iters=iters)
+    w = Walker(P, sim, keep=lambda e: e.kind == "call" and e.d["meth"] in ("have_event", "update_next_event_date", "find_next_active_node") or e.kind in ("iter", "return"), inline=rules.new_helper, loop_iters=iters)
     for st in w.paths_of(cls, fn):
         seq = [e.d["meth"] if e.kind == "call" else e.kind for e in st.events]
         ob.ok("event_and_return_nextnode:%s" % ">".join(seq))
@@ -362,7 +362,7 @@ def counter_table(ctx, P):
     raising_default = False
     for meth in list(want) + ["<other>"]:
         w = Walker(P, sim, keep=lambda e: (e.kind == "assign" and e.d.get("local") and isinstance(e.d.get("value_node"), ast.Lambda)) or e.kind in ("raise", "iter", "loopexit"),
-                   literal_args={"method": repr(meth)}, inline=lambda ev: False, loop_iters=(0,))
+                   literal_args={"method": repr(meth)}, inline=rules.new_helper, loop_iters=(0,))
         for st in w.paths_of(cls, fn):
             lam = [e for e in st.events if e.kind == "assign"]
             if st.status == "raise":
